@@ -10,6 +10,7 @@ import (
 	"errors"
 	"fmt"
 	"strings"
+	"sync/atomic"
 	"time"
 
 	bs "github.com/danthegoodman1/bloomsearch"
@@ -127,8 +128,9 @@ type cursorScenario struct {
 	slots    []*bs.VerifSlot
 	sem      chan struct{}
 
-	cancelled bool
-	finished  bool
+	cancelled  bool
+	closeEarly atomic.Bool // a Close call returned before the workers were done
+	finished   bool
 	nextObs   []nextObs         // consumer's observations in order
 	perWorker map[int][][]int64 // worker index -> batches in issue order
 	stats     []bs.BlockStats   // in call order
@@ -265,7 +267,12 @@ func runCursorScenario(c *Ctx, fixed bool, script string) (term string, desc map
 		if !sc.closers[k].settle(0) {
 			return
 		}
-		sc.closers[k].start(func() { sc.r.Close() })
+		sc.closers[k].start(func() {
+			sc.r.Close()
+			if !sc.r.VerifWorkersDone() {
+				sc.closeEarly.Store(true)
+			}
+		})
 		sc.closers[k].settle(settleShort)
 	}
 
@@ -486,6 +493,9 @@ func runCursorScenario(c *Ctx, fixed bool, script string) (term string, desc map
 			c.violation("q-cursor-cancel-missed", fmt.Sprintf("cursor component: the caller's context (%s) was cancelled before the Next call that returned false began, nobody had called Close, yet Err = %s %s",
 				ctxKind, finalErr.kind, finalErr.text), map[string]any{"plan": sc.plan, "ctx": ctxKind})
 		}
+	}
+	if sc.closeEarly.Load() {
+		c.violation("q-close-early", "cursor component: a Close call returned before markWorkersDone (the pipeline had not wound down)", map[string]any{"plan": sc.plan})
 	}
 	c.dist("cursor_ctx", ctxKind)
 	closerIdx := map[int64]int{mainGid: nClosers}
